@@ -143,6 +143,23 @@ def campaign(c):
             if len(f) != 1 or f[0][14:] != want:
                 c.violation('sem:arg-order', 'arguments were not evaluated left to right exactly once', dict(src=src.decode()))
         c.case(('ord', i), dict(kind='order', src=src.decode()[:300]))
+    # (h) variables and modules live in separate namespaces (the shipped examples rely on it: `import dns; let dns = flow`):
+    #     a let of a module's name placed before or after that module's import must not disturb either
+    tops = {}
+    for sdef in lib.consts:
+        if sdef['def']['type'] in ('U8', 'U16', 'U32', 'U64'): tops.setdefault(sdef['path'].split('::')[0], sdef['path'])
+    for mod, cpath in sorted(tops.items()):
+        outs = []
+        for order in (['import %s;' % mod, 'let %s = 7;' % mod], ['let %s = 7;' % mod, 'import %s;' % mod], ['import %s;' % mod, 'let %s = 7;' % mod, 'import %s;' % mod]):
+            src = ('import eth;\nimport std;\n' + '\n'.join(order) + '\neth::frame("|000000000001|", "|000000000002|", std::be64(%s), std::be64(%s));\n' % (mod, cpath)).encode()
+            impl, model = progdiff.run_both(c, src)
+            progdiff.compare(c, src, impl, model, 'namespace')
+            outs.append((impl['outcome'], impl['file']))
+            if impl['outcome'][0] != 'success':
+                c.violation('sem:namespace', 'module %s is not usable after its import when a variable of the same name exists: %s' % (mod, impl['outcome'],), dict(src=src.decode()))
+        if len(set(o[1] for o in outs)) != 1:
+            c.violation('sem:namespace-order', 'the order of `import %s` and `let %s` changes the output' % (mod, mod), dict(src=src.decode()))
+        c.case(('namespace', mod), dict(kind='namespace', module=mod))
     # (g) scale: many bindings, each a different value, used in reverse order, re-emitted; many statements; the k-th name must
     #     still denote the k-th value (names around 2^8 and, in the thorough tier, 2^16 bindings)
     for n in ([255, 256, 257, 1000] if c.quick else [255, 256, 257, 4096, 65535, 65536, 65537]):
